@@ -17,6 +17,7 @@ type draw struct {
 	W  int      `json:"w"`
 	V  uint64   `json:"v"`
 	Vs []uint64 `json:"vs"`
+	S  bool     `json:"s"` // drawn inside an engine-only stub (rt.Replace): skipped natively
 }
 
 type ufEntry struct {
@@ -69,6 +70,9 @@ func load() {
 
 func next(kind string) draw {
 	load()
+	for pos < len(mdl.Draws) && mdl.Draws[pos].S {
+		pos++
+	}
 	if pos >= len(mdl.Draws) {
 		panic(divergence{fmt.Sprintf("model exhausted at draw %d (want %s)", pos, kind)})
 	}
@@ -305,3 +309,7 @@ func IteInt(c bool, a, b int) int {
 	return b
 }
 func Debug(tag string, v any) {}
+
+func StubBool() bool          { panic(divergence{"engine-only stub executed natively"}) }
+func StubU64() uint64         { panic(divergence{"engine-only stub executed natively"}) }
+func StubBytes(n int) []byte  { panic(divergence{"engine-only stub executed natively"}) }
